@@ -630,6 +630,7 @@ impl<'a> Parser<'a> {
             }
 
             patterns.push(self.parse_graph_pattern_element()?);
+            self.skip_pattern_separator();
         }
 
         self.expect(TokenKind::RightBrace)?;
@@ -708,7 +709,15 @@ impl<'a> Parser<'a> {
                 Ok(GraphPattern::SubSelect(Box::new(subquery)))
             }
             _ => {
-                // Triple patterns
+                // Triple patterns.  A token that cannot start a triple must be rejected here:
+                // `parse_triples_block` would return without consuming it and the callers'
+                // `while current != '}'` loops would never terminate.
+                if !self.is_triple_start() {
+                    return Err(self.error(&format!(
+                        "unexpected token '{}' in graph pattern",
+                        self.current.text
+                    )));
+                }
                 let triples = self.parse_triples_block()?;
                 Ok(GraphPattern::Basic(triples))
             }
@@ -740,6 +749,7 @@ impl<'a> Parser<'a> {
                     return Err(self.error("unexpected end of input in graph pattern"));
                 }
                 patterns.push(self.parse_graph_pattern_element()?);
+                self.skip_pattern_separator();
             }
             self.expect(TokenKind::RightBrace)?;
 
@@ -872,6 +882,14 @@ impl<'a> Parser<'a> {
         }
 
         Ok(triples)
+    }
+
+    /// `GroupGraphPatternSub ::= TriplesBlock? ( GraphPatternNotTriples '.'? TriplesBlock? )*`:
+    /// one optional '.' after a pattern element that is not a triples block.
+    fn skip_pattern_separator(&mut self) {
+        if self.current.kind == TokenKind::Dot {
+            self.advance();
+        }
     }
 
     fn is_triple_start(&self) -> bool {
